@@ -20,7 +20,7 @@ RULE = ('Generated: rule-conforming antennas (free space / ideal ground, 0.1..10
 BUDGET = {'quick': {'examples': 1200, 'wall': 200}, 'thorough': {'examples': 40000, 'wall': 1500}}
 ASSUMPTIONS = ['feed impedance differences are compared with tolerance 1e-8 * cond(Z) relative',
                'skin effect: exact Bessel reference (mpmath); for |k a| >= 110 the documented asymptote is allowed 5e-3']
-LABEL_FLOORS = {'several-statements-incl-whole-object': 0.05, 'pulse-named-twice-by-one-load': 0.01, 'scn-feed': 0.2, 'scn-dist': 0.2, 'scn-noop': 0.1, 'load-on-junc': 0.05, 'load-on-gnd': 0.03,
+LABEL_FLOORS = {'several-statements-incl-whole-object': 0.04, 'pulse-named-twice-by-one-load': 0.01, 'scn-feed': 0.2, 'scn-dist': 0.2, 'scn-noop': 0.1, 'load-on-junc': 0.05, 'load-on-gnd': 0.03,
                 'rlc-all-three': 0.02, 'skin+ins-same-wire': 0.03, 'dist-by-tag': 0.05}
 
 
